@@ -110,8 +110,10 @@ def _c13_runs(tier, seed, replay):
 
 def _c14_runs(tier, seed, replay):
     if tier == "quick":
-        return [["configs", "--seed", S(seed, i), "--n", "40", "--maxops", "25"] for i in range(1, 4)] + [["backends", "--seed", S(seed, 9), "--n", "300"]]
-    return [["configs", "--seed", S(seed, 10 + i), "--n", "250", "--maxops", "30"] for i in range(12)] + [["backends", "--seed", S(seed, 40 + i), "--n", "2000"] for i in range(2)]
+        return ([["configs", "--seed", S(seed, i), "--n", "40", "--maxops", "25"] for i in range(1, 4)] + [["backends", "--seed", S(seed, 9), "--n", "300"]]
+                + [["@nosparse", "configs", "--seed", S(seed, 4), "--n", "30", "--maxops", "25"], ["@nosparse", "backends", "--seed", S(seed, 8), "--n", "200"]])
+    return ([["configs", "--seed", S(seed, 10 + i), "--n", "250", "--maxops", "30"] for i in range(12)] + [["backends", "--seed", S(seed, 40 + i), "--n", "2000"] for i in range(2)]
+            + [["@nosparse", "configs", "--seed", S(seed, 30 + i), "--n", "250", "--maxops", "30"] for i in range(3)] + [["@nosparse", "backends", "--seed", S(seed, 50), "--n", "2000"]])
 
 def _c10_runs(tier, seed, replay):
     if tier == "quick":
@@ -177,10 +179,10 @@ PROPS = {
     "C14": dict(
         theorems=["HC.C14.file_laws", "HC.C14.backend_indep", "HC.C14.cache_transparent", "HC.C14.cache_fill_ok"],
         bridge_modules=["HC.Bridge.Stores"], bridging=STORES_BRIDGE,
-        runs=_c14_runs,
+        runs=_c14_runs, alt_builds=["nosparse"],
         partial="proved: the flat-file laws, congruence of reads/writes under byte-for-byte agreement, transparency of any cache holding only non-blank stored nodes. Validated (not proved): that the three real backends realise the flat file, that the crate only ever inserts such nodes into its cache, deterministic signatures and flush cadence — by running every history under 6 configurations and the backends against the flat file.",
         rule="every history (log operations + replication requests incl. block/hash + seek combinations, reopen, dumps) is run on the reference configuration (instrumented backend, no cache; compared with the Lean model) and on 5 mirrors {cache default, cache 300 bytes, memory backend, disk backend, disk + tiny cache}; every answer and every raw store (up to trailing zero bytes across backends) must coincide; plus random write/read/del/truncate sequences on random-access-memory (page sizes 16, 1024, 1 MiB) and random-access-disk against the flat-file model",
-        trusted=LOG_TRUSTED + ["moka (node cache) and the OS file system are exercised, not modelled", "sparse hole punching is whatever the harness build's random-access-disk feature set provides (sparse on); the non-sparse variant is not built"],
+        trusted=LOG_TRUSTED + ["moka (node cache) and the OS file system are exercised, not modelled", "the disk backend is run in both variants of random-access-disk: with the `sparse` feature (deletes punch holes; the crate's default) and without it (deletes write zeros) - the harness is built twice for this check"],
     ),
     "C12": dict(
         theorems=["HC.C12.not_writable", "HC.C12.ro_idempotent", "HC.C12.ro_result", "HC.C12.ro_journal", "HC.C12.ro_both_slots",
